@@ -28,9 +28,10 @@ OBLIGATIONS = [
 # N5 (look-up order / lazy rule variables, harness C17/h_lookup.cpp) is built but does not reach a verdict:
 # the real llvm::StringMap probing and std::string code need > 600 s per query even with the binding shape concrete.
 DISABLED = [
-    dict(name='N5.lookup-order', harness='C17/h_lookup.cpp', entry='harness_lookup', stubs=STREAM,
-         tus=['lib/llvm/Support/raw_ostream.cpp', 'lib/llvm/Support/StringMap.cpp', 'lib/llvm/Support/StringRef.cpp', 'lib/Ninja/Manifest.cpp'],
-         noinline=[r'ManifestLoaderImpl24lookupBuildParameterImpl', r'ManifestLoaderImpl10evalString'], expect_functions=[r'ManifestLoaderImpl24lookupBuildParameterImpl'],
+    dict(name='N5.lookup-order', harness='C17/h_lookup.cpp', entry='harness_lookup', stubs=STREAM + ['ManifestLoaderImpl10evalStringEPvN4llvm9StringRefE.*$=stub_evalString'], byte_copy='loop', copy_unwind=40, shim_includes=['C17/shim'],   # shim: contract model of llvm::StringMap (see the header)
+        
+         tus=['lib/llvm/Support/raw_ostream.cpp', 'lib/llvm/Support/StringRef.cpp'],
+         noinline=[r'ManifestLoaderImpl24lookupBuildParameterImpl'], expect_functions=[r'ManifestLoaderImpl24lookupBuildParameterImpl'],
          stub_virtual=['ManifestLoaderImpl(?!5error)', '^_ZN7llbuild5ninja12ParseActions', 'JobDescriptor', 'ninja7Command'], allow_external=['^_ZTV'], assert_external=['.'],
          unwind=8, unwind_loops=[('StringMap|HashString', 20)], params_quick=[{'VF_MASK': m} for m in (0, 1, 2, 6, 14, 16, 18, 31)], params_thorough=[{'VF_MASK': m} for m in range(32)], timeout=600, cbmc_flags=['--object-bits', '10']),
 ]
